@@ -68,6 +68,16 @@ CHECKS = {
         ref="3/C08",
         technique="deterministic simulation with an independent in-process peer (differential interop), seeded search",
     ),
+    "C05": dict(
+        level="exploration",
+        text=("one long-lived process node receives seeded histories of 20-200 calls (every JWS/JWE/RFC 7797/JWT operation and "
+              "serialisation) with allow-lists given as algorithms= or registry= (fresh, shared between calls, default), names "
+              "from every registered algorithm, unknown strings and non-strings, consumer inputs minted by the reference peer, "
+              "and draft-algorithm registrations as history events; every call is judged against static tables transcribed from "
+              "the documentation, so any dependence on earlier calls shows; violations are delta-debugged over the history."),
+        ref="3/C05",
+        technique="deterministic simulation: seeded operation histories on shared state checked step by step against a memoryless reference model, ddmin over the history",
+    ),
     "C10": dict(
         level="exploration",
         text=("discrete-event world with an issuer clock, wire delays and a validator clock subject to skew and forward/backward "
